@@ -38,23 +38,40 @@ Fixpoint list_run vld mn mx (l : list Z) (ops : list lop) : list (lop * obs) :=
   end.
 
 (* ---------------- Set(T) ---------------- *)
+(* The set and dict models are those of C07 / C06; C04 reads them through their field
+   accessors only: outcome, contents, number of notifications (and pop's value). *)
+Definition sobs := (S.outcome * list Z * nat * option Z)%type.
+Definition s_view (ob : S.obs) : sobs := (S.o_out ob, S.o_after ob, List.length (S.o_events ob), S.o_ret ob).
+Definition so_out (ob : sobs) : S.outcome := fst (fst (fst ob)).
+Definition so_after (ob : sobs) : list Z := snd (fst (fst ob)).
+Definition so_nev (ob : sobs) : nat := snd (fst ob).
+
 Inductive sop := SOp (o : S.op) | SAssign (is_set : bool) (vs : list Z).
 
-Definition set_step (vld : Z -> option Z) (s : list Z) (so : sop) : S.obs :=
+Definition set_step (vld : Z -> option Z) (s : list Z) (so : sop) : sobs :=
   match so with
-  | SOp o => S.step vld s o
-  | SAssign is vs =>
-      if is then match S.vld_all vld vs with Some ys => S.ok ys [] | None => S.raise S.TraitError s end
-      else S.raise S.TraitError s
+  | SOp o => s_view (S.step vld s o)
+  | SAssign is vs =>                            (* Set.validate, then TraitSetObject.__init__ *)
+      if is then match S.vld_all vld vs with
+                 | Some ys => (S.Ok, ys, 0%nat, None)
+                 | None => (S.Raise S.TraitError, s, 0%nat, None)
+                 end
+      else (S.Raise S.TraitError, s, 0%nat, None)
   end.
 
-Fixpoint set_run vld (s : list Z) (ops : list sop) : list (sop * S.obs) :=
+Fixpoint set_run vld (s : list Z) (ops : list sop) : list (sop * sobs) :=
   match ops with
   | [] => []
-  | o :: r => let ob := set_step vld s o in (o, ob) :: set_run vld (S.o_after ob) r
+  | o :: r => let ob := set_step vld s o in (o, ob) :: set_run vld (so_after ob) r
   end.
 
 (* ---------------- Dict(K, V) ---------------- *)
+Definition dobs := (D.outcome * amap * nat)%type.
+Definition d_view (ob : D.obs) : dobs := (D.o_out ob, D.o_after ob, List.length (D.o_events ob)).
+Definition do_out (ob : dobs) : D.outcome := fst (fst ob).
+Definition do_after (ob : dobs) : amap := snd (fst ob).
+Definition do_nev (ob : dobs) : nat := snd ob.
+
 Inductive dop := DOp (o : D.op) | DAssign (is_dict : bool) (ps : list (Z * Z)).
 
 (* {key_validator(k): value_validator(v) for k, v in items}: the first rejection aborts *)
@@ -71,22 +88,22 @@ Fixpoint vld_pairs (kv vv : Z -> option Z) (ps : list (Z * Z)) : option (list (Z
       end
   end.
 
-Definition dict_step (kv vv : Z -> option Z) (tgt : D.target) (m : amap) (o : dop) : D.obs :=
+Definition dict_step (kv vv : Z -> option Z) (m : amap) (o : dop) : dobs :=
   match o with
-  | DOp o => D.step kv vv tgt m o
-  | DAssign isd ps =>
+  | DOp o => d_view (D.step kv vv D.Plain m o)
+  | DAssign isd ps =>                           (* Dict.validate, then TraitDictObject.__init__ *)
       if isd then
         match vld_pairs kv vv (update_all ps []) with       (* value is a dict: unique raw keys *)
-        | Some qs => D.ok tgt (update_all qs []) [] D.RNone
-        | None => D.raise tgt D.TraitError m
+        | Some qs => (D.Ok, update_all qs [], 0%nat)
+        | None => (D.Raise D.TraitError, m, 0%nat)
         end
-      else D.raise tgt D.TraitError m
+      else (D.Raise D.TraitError, m, 0%nat)
   end.
 
-Fixpoint dict_run kv vv tgt (m : amap) (ops : list dop) : list (dop * D.obs) :=
+Fixpoint dict_run kv vv (m : amap) (ops : list dop) : list (dop * dobs) :=
   match ops with
   | [] => []
-  | o :: r => let ob := dict_step kv vv tgt m o in (o, ob) :: dict_run kv vv tgt (D.o_after ob) r
+  | o :: r => let ob := dict_step kv vv m o in (o, ob) :: dict_run kv vv (do_after ob) r
   end.
 
 (* ---------------- List(List(T)) ---------------- *)
